@@ -4,8 +4,8 @@ copies a confirmed seeded change into /verif/seeded/<PID>-<i>/ with meta.json"""
 import json, os, shutil, sys
 pid, i, det, needs = sys.argv[1:5]
 flags = sys.argv[5] if len(sys.argv) > 5 else ""
-src = "/tmp/seed-%s" % pid
-dst = "/verif/seeded/%s-%s" % (pid, i)
+src = os.environ.get("SRC", "/tmp/seed-%s" % pid)
+dst = "/verif/seeded/%s-%s" % (pid, os.environ.get("DST_I", i))
 os.makedirs(dst, exist_ok=True)
 shutil.copy("%s/patch%s.diff" % (src, i), dst + "/patch.diff")
 shutil.copy("%s/demo%s.rs" % (src, i), dst + "/demo.rs")
